@@ -33,7 +33,7 @@ CLAIMED = {
     "C06": {
         "level": "exploration",
         "technique": TECH + "seeded call histories with .grad tampering (F8) against a state model; bitwise snapshots and storage-ownership checks",
-        "text": "Histories of 3-8 backward/mtl_backward calls on retained graphs interleaved with zeroing, set-to-None, in-place edits and preloads of .grad; after every step the model of every leaf's .grad, the bytes of all tensors, the identity of unrequested .grad fields and the storage ownership of fresh .grad tensors are checked.",
+        "text": "Histories of 3-8 backward/mtl_backward calls on retained graphs interleaved with zeroing, set-to-None, in-place edits and preloads of .grad (15% of the program worlds carry a requested 0-element parameter); after every step the model of every leaf's .grad, the bytes of all tensors, the identity of unrequested .grad fields and the storage ownership of fresh .grad tensors are checked.",
         "note": "Trusted: reference interpreter; storage inspection through data_ptr/untyped_storage. Excluded: retain_grad() graphs.",
         "ref": "DESIGN.md §3 C06",
     },
@@ -54,14 +54,14 @@ CLAIMED = {
     "C11": {
         "level": "exploration",
         "technique": TECH + "seeded call histories over aggregator instances with corrupted-Jacobian (F4) and numerical-kernel failure (F5) injection; fresh-instance replay as oracle",
-        "text": "Decides the history/purity/seed/rejection/fault-path clauses: bytes of the input are unchanged by every call (also rejected and faulted ones), a clean call equals bitwise a fresh instance on the same matrix in a world with no history (instances are called across row counts and dtypes), NaN/Inf/non-2-d/row-count faults are rejected with ValueError, and injected SVD/eigh/pinv/QP/Clarabel failures either propagate, become a ValueError, or yield finite data of the right shape/dtype -- never a swallowed fault followed by another crash -- and never poison the next call.",
+        "text": "Decides the history/purity/seed/rejection/fault-path clauses: bytes of the input are unchanged by every call (also rejected and faulted ones), a clean call equals bitwise a fresh instance on the same matrix in a world with no history (instances are called across row counts and dtypes; those holding a weight/preference/leak tensor also meet matrices of the other dtype, where acceptance is not judged but after-effects are), NaN/Inf/non-2-d/row-count faults are rejected with ValueError, and injected SVD/eigh/pinv/QP/Clarabel failures either propagate, become a ValueError, or yield finite data of the right shape/dtype -- never a swallowed fault followed by another crash -- and never poison the next call.",
         "note": "Not decided: positive homogeneity and the 27-orders-of-magnitude range (pure input-space clauses). Trusted: bitwise reproducibility of LAPACK/quadprog/Clarabel in one process configuration (re-verified by the determinism self-test).",
         "ref": "DESIGN.md §3 C11",
     },
     "C12": {
         "level": "exploration",
         "technique": TECH + "defaulted vs explicit calls on twin graphs under seeded schedules; the generator's own DAG is the oracle for discovery",
-        "text": "backward without inputs / mtl_backward without parameter lists on one graph, the explicit call with the model's reachability sets on a twin; all .grad fields must agree in None-ness and value; overlapping default sets must be rejected with nothing written.",
+        "text": "backward without inputs / mtl_backward without parameter lists on one graph, the explicit call with the model's reachability sets on a twin; all .grad fields must agree in None-ness and value; overlapping default sets must be rejected with nothing written. In a third of the runs an earlier defaulted call from other roots or with another exclusion ran on the same retained graph (history on the defaulted side only): a discovery must not depend on discoveries made before.",
         "note": "Trusted: the generator's DAG reachability. Excluded: multi-output siblings of features.",
         "ref": "DESIGN.md §3 C12",
     },
@@ -82,7 +82,7 @@ CLAIMED = {
     "C18": {
         "level": "exploration",
         "technique": TECH + "the simulator owns torch.randperm/rand/randn (S2): projection-order schedules, sign draws and weight draws; reference model under the recorded draws + finite candidate set",
-        "text": "Decides the PCGrad, GradDrop and Random clauses: PCGrad under scheduler-chosen projection orders is compared with the paper's algorithm on the recorded orders; for m<=4 the verdict is membership in the exhaustive candidate set of all order combinations (the whole order product is enumerated for fixed matrices in the thorough tier), for m in {5,6} a mismatch is judged after five alternative ways of using the draws; every GradDrop coordinate must be a keep-positive or keep-negative sum with the leaked share (the branch must be explained by the recorded uniforms under one of two conventions); Random's weights are strictly positive and sum to one.",
+        "text": "Decides the PCGrad, GradDrop and Random clauses: PCGrad under scheduler-chosen projection orders is compared with the paper's algorithm on the recorded orders; for m<=4 the verdict is membership in the exhaustive candidate set of all order combinations (the whole order product is enumerated for fixed matrices in the thorough tier), for m in {5,6} a mismatch is judged after five alternative ways of using the draws; every GradDrop coordinate must be a keep-positive or keep-negative sum with the leaked share (the branch must be explained by the recorded uniforms under one of two conventions); Random's weights are strictly positive and sum to one, also when the same Random object was called before on matrices with other row counts.",
         "note": "Not decided: the MGDA and CAGrad clauses (deterministic, no seam). If the RNG seam is not reached the check degrades to the seam-agnostic candidate-set oracle and says so in the evidence.",
         "ref": "DESIGN.md §3 C18",
     },
